@@ -827,6 +827,9 @@ func init() {
 	reg("both", "C02-frames-through-the-udp-receiver-L2", "C02", 0, -1, c16History(false, 2), false)
 	reg("both", "C02-frames-through-the-tcp-receiver-L2", "C02", 0, -1, c16History(true, 2), false)
 	reg("both", "C02-frames-through-the-tcp-receiver-2cuts", "C02", 0, -1, c16TCPSeg(0, 2), false)
+	// ... and on the way out: what the socket hands to the network for a value is that value's
+	// encoding, also while other goroutines send other values through the same socket
+	reg("both", "C02-encodings-leave-the-socket-intact-udp-senders-3x2", "C02", 2, 2, c16Senders(false, 3, 2), false)
 	// "the outcome is a function of the input bytes alone" for bytes that reach the decoder through
 	// the stream receiver: the same frames, however the stream is cut into segments
 	reg("both", "C01-tcp-receiver-2cuts-upto2frames", "C01", 0, -1, c16TCPSeg(0, 2), false)
